@@ -7,6 +7,7 @@ import (
 	"fmt"
 	"os"
 	"reflect"
+	"sort"
 	"strings"
 	"sync"
 
@@ -196,4 +197,96 @@ func cmdDeterm() {
 		}
 		fmt.Fprintf(w, "D %s %s %s %s texts=%s\n", id, verdict, state, hex.EncodeToString(h[:8]), hex.EncodeToString(th[:8]))
 	})
+}
+
+// firstuse (C13): the FIRST uses of the library in this process happen concurrently. Sixteen goroutines are released
+// together; each looks up an architecture under its own mixed-case spelling, compiles its own policy value (with
+// argument conditions; half of them for the architecture the library resolves itself) and converts actions and flags to
+// text. Nothing of the library has run before (no byte-order hook, no lookup). Afterwards the same work is repeated
+// sequentially and compared. Prints "F <variant> ok" or "F <variant> DIFF <what>"; the race detector reports the rest.
+func init() { commands["firstuse"] = cmdFirstUse }
+
+func cmdFirstUse() {
+	variant := 0
+	if len(os.Args) > 2 {
+		fmt.Sscanf(os.Args[2], "%d", &variant)
+	}
+	spellings := []struct{ s, key string }{
+		{"AMD64", "X86_64"}, {"Amd64", "X86_64"}, {"X86_64", "X86_64"}, {"x86_64", "X86_64"}, {"I386", "I386"}, {"386", "I386"},
+		{"ARM", "ARM"}, {"Arm", "ARM"}, {"ARM64", "AARCH64"}, {"AArch64", "AARCH64"}, {"aarch64", "AARCH64"}, {"X32", "X32"},
+		{"aMd64", "X86_64"}, {"i386", "I386"}, {"arM", "ARM"}, {"aRm64", "AARCH64"},
+	}
+	ops := []seccomp.Operation{seccomp.Equal, seccomp.NotEqual, seccomp.GreaterThan, seccomp.LessThan, seccomp.GreaterOrEqual,
+		seccomp.LessOrEqual, seccomp.BitsSet, seccomp.BitsNotSet}
+	work := func(g int) string {
+		var sb strings.Builder
+		sp := spellings[(g+variant)%len(spellings)]
+		step := func(k int) {
+			switch k {
+			case 0:
+				ai, err := arch.GetInfo(sp.s)
+				if err != nil || ai != allArches[sp.key] {
+					fmt.Fprintf(&sb, "LOOKUP-WRONG:%s;", sp.s)
+				}
+			case 1:
+				p := &seccomp.Policy{DefaultAction: seccomp.ActionAllow, Syscalls: []seccomp.SyscallGroup{{
+					Action: seccomp.ActionErrno,
+					Names:  []string{"getpid"},
+					NamesWithCondtions: []seccomp.NameWithConditions{{Name: "write", Conditions: []seccomp.Condition{
+						{Argument: uint32(g % 6), Operation: ops[g%8], Value: uint64(g)<<32 | uint64(variant)}}}},
+				}}}
+				if g%2 == 0 {
+					seccomp.SetArchVerif(p, allArches[sp.key])
+				}
+				insts, err := p.Assemble()
+				if err != nil {
+					sb.WriteString("ERR;")
+				} else {
+					sb.WriteString(instrTokens(insts))
+					sb.WriteByte(';')
+				}
+			case 2:
+				sb.WriteString(seccomp.Action(uint32(0x7fff0000)).String())
+				sb.WriteString(seccomp.FilterFlag(uint32(g%8) | 4<<uint(g)).String())
+				sb.WriteByte(';')
+			}
+		}
+		for k := 0; k < 3; k++ {
+			step((k + g + variant) % 3)
+		}
+		// the order of the steps must not matter for what each of them yields
+		parts := strings.Split(sb.String(), ";")
+		sort.Strings(parts)
+		return strings.Join(parts, ";")
+	}
+	var wg sync.WaitGroup
+	start := make(chan struct{})
+	conc := make([]string, 16)
+	for g := 0; g < 16; g++ {
+		wg.Add(1)
+		go func(g int) {
+			defer wg.Done()
+			<-start
+			conc[g] = work(g)
+		}(g)
+	}
+	close(start)
+	wg.Wait()
+	verdict := "ok"
+	for g := 0; g < 16; g++ {
+		if again := work(g); again != conc[g] || strings.Contains(again, "LOOKUP-WRONG") {
+			verdict = fmt.Sprintf("DIFF goroutine %d: concurrent first use %q, sequential repeat %q", g, conc[g], again)
+			break
+		}
+	}
+	// every spelling still resolves to its record, unknown names are still refused
+	for _, sp := range spellings {
+		if ai, err := arch.GetInfo(sp.s); err != nil || ai != allArches[sp.key] {
+			verdict = "DIFF lookup of " + sp.s + " after the concurrent phase"
+		}
+	}
+	if _, err := arch.GetInfo("Nope64"); err == nil {
+		verdict = "DIFF an unknown name resolves after the concurrent phase"
+	}
+	fmt.Printf("F %d %s\n", variant, verdict)
 }
